@@ -72,6 +72,22 @@ reg("C17", "Hypothesis -> gensquashfs -S (asan) -> layout decoded by the indepen
     "Trusts lib/sqfsimg.py, the model in checks/c17.py (from gensquashfs.1) and its small fnmatch; twins are not judged for dont_compress "
     "(dedup vs. directive precedence is undocumented); the 'align' flag is documented but unimplemented and left out.", "DESIGN.md 4/C17")
 
+reg("C12", "Hypothesis scenarios x LD_PRELOAD I/O shim (short counts, EINTR, pipe chunking)", "fault_enumeration",
+    "metamorphic: output digest and exit status under injected short transfers / EINTR / pipe chunkings equal the undisturbed run",
+    "Seven tool invocations over generated inputs run under src/io_shim.c: seeded random sequences of full/short/EINTR outcomes on every "
+    "read, write, pread and pwrite, every single data call k short by one byte, halved or interrupted (all k for small inputs), stdin fed in "
+    "chunks of 1..4096 bytes and stdout drained slowly. Image / archive / stdout / unpacked-tree digest and exit status must not change.",
+    "Faults are injected at the libc wrappers of the tool process; stdio-internal writes and kernel behaviour are out of reach; plain build.",
+    "DESIGN.md 4/C12")
+reg("C13", "Hypothesis scenarios x exhaustive single-fault positions (LD_PRELOAD shim, --wrap allocator)", "fault_enumeration",
+    "fault injection at every system call position and every project allocation, with a fail-stop oracle",
+    "For each generated small input and each of gensquashfs (dir / pack file), tar2sqfs, sqfs2tar, rdsquashfs -c/-u: a counting run, then every "
+    "single fault position: k-th write/read/open/ftruncate/fsync/lseek failing with ENOSPC/EIO (also EINTR first), k-th project allocation "
+    "returning NULL (ASan build with --wrap). No signal/sanitizer report/hang; exit != 0 => diagnostic and, for packers, no output file; "
+    "exit 0 => output identical to the fault-free run.",
+    "Single faults only; injected at libc wrappers / allocation call sites of project objects; sanitizer runtime symbolizer disabled during "
+    "injection (its own pipe I/O would be hit); premature EOF is not a fault (shorter inputs are legitimate).", "DESIGN.md 4/C13")
+
 NOT_YET = {}
 
 ALL = ["C%02d" % i for i in range(1, 20)]
